@@ -8,7 +8,7 @@ namespace {
 json schema8()
 {
 	json ms_sub = json::array({{{"n", "k"}, {"t", "int"}, {"d", 0}}, {{"n", "v"}, {"t", "str"}, {"d", "x"}}, {{"n", "include"}, {"t", "func"}, {"fn", "include"}}});
-	json one_sub = json::array({{{"n", "x"}, {"t", "int"}, {"d", 1}}, {{"n", "xl"}, {"t", "int"}, {"fl", F_LIST}, {"dp", "{7}"}}});
+	json one_sub = json::array({{{"n", "x"}, {"t", "int"}, {"d", 1}}, {{"n", "xl"}, {"t", "int"}, {"fl", F_LIST}, {"dp", "{7}"}}, {{"n", "include"}, {"t", "func"}, {"fn", "include"}}});
 	json opts = json::array({
 		{{"n", "a"}, {"t", "int"}, {"d", 0}},
 		{{"n", "f"}, {"t", "float"}, {"d", 0.5}},
@@ -47,6 +47,8 @@ json world8()
 	fs.push_back(fs_file("/inc/incomment.conf", "a = 4 /* never closed\n"));
 	fs.push_back({{"path", "/inc/dir"}, {"kind", "dir"}});
 
+	fs.push_back(fs_file("/inc/one.conf", "x = 9\nxl += {10}\n"));
+	fs.push_back(fs_file("/inc/good_ms.conf", "k = 5\nv = \"from file\"\n"));
 	// the callbacks of these run while an included file is open (re-entry probes)
 	fs.push_back(fs_file("/inc/reentry.conf", "b = on\nfn(\"x\")\nvi = 6\nsl += {inner}\n"));
 	fs.push_back(fs_file("/inc/reentry2.conf", "f = 0.5\ninclude(\"/inc/reentry.conf\")\nl += 3\n"));
@@ -264,6 +266,30 @@ json generate(uint64_t seed, uint64_t idx, int tier)
 		ps["appendprobe"] = 1;
 		steps.push_back(ps);
 	}
+	// what a context is told between two parses (a search directory) counts for the second one, also inside a section
+	// the first one has opened already
+	if (r.chance(1, 4)) {
+		int cl = (int)r.below(nclients);
+		steps.push_back(step(cl, "init", 8));
+		if (r.chance(1, 2)) {
+			// a first search directory (without the files wanted later) is there before the first parse
+			json a0 = step(cl, "addpath", 8);
+			a0["dir"] = "/cfg";
+			steps.push_back(a0);
+		}
+		if (r.chance(3, 4)) {
+			json h = parse_step(cl, 8, "buf", r.chance(1, 2) ? "one { x = 1 }\n" : "ms \"t1\" { k = 1 }\none { }\n");
+			h["hist"] = 1;
+			steps.push_back(h);
+		}
+		json a = step(cl, "addpath", 8);
+		a["dir"] = "/inc";
+		steps.push_back(a);
+		json ps = parse_step(cl, 8, "buf", r.chance(1, 2) ? "one { include(\"one.conf\") }\n" : "ms \"t1\" { include(\"good_ms.conf\") }\ninclude(\"good.conf\")\n");
+		ps["histprobe"] = 1;
+		ps["pin"] = 1;
+		steps.push_back(ps);
+	}
 	// re-entry: while a text is being parsed, a callback (application code) releases another context, or creates,
 	// fills and releases a temporary one; neither may change what this parse does
 	if (r.chance(1, 3)) {
@@ -475,6 +501,50 @@ JudgeOut judge(const json &plan)
 				out.viol.push_back({"O-append", "'" + name + " += ...' parsed into a re-used context must append to its current values [" + before + "] but the option now holds [" + after + "]: an earlier (aborted) parse left a trace", nullptr});
 		}
 
+	// ---- O-hist: return code and diagnostics of a parse do not depend on the earlier parses into the same context
+	// (everything else the context was told - here a search directory - being equal)
+	if (out.viol.empty())
+		for (size_t i = 0; i < plan["steps"].size(); i++) {
+			const json &st = plan["steps"][i];
+			if (!st.value("histprobe", 0))
+				continue;
+			json nohist = plan;
+			json kept = json::array();
+			std::vector<size_t> map;
+			bool any = false;
+			for (size_t k = 0; k < plan["steps"].size(); k++) {
+				const json &s0 = plan["steps"][k];
+				if (s0.value("hist", 0) && s0.value("cl", 0) == st.value("cl", 0) && s0.value("c", 0) == st.value("c", 0) && k < i) {
+					any = true;
+					continue;
+				}
+				map.push_back(k);
+				kept.push_back(s0);
+			}
+			if (!any)
+				continue;
+			nohist["steps"] = kept;
+			nohist.erase("params");
+			RunResult nr = execute(nohist);
+			add_exec_counters(out, nr);
+			const OpResult *a = nullptr, *b = nullptr;
+			for (auto &o : base.ops)
+				if (o.index == (int)i)
+					a = &o;
+			for (auto &o : nr.ops)
+				if (o.index >= 0 && (size_t)o.index < map.size() && map[o.index] == i)
+					b = &o;
+			if (!a || !b || a->skipped || b->skipped)
+				continue;
+			out.k.add("probe.parse_after_history_vs_without");
+			if (a->ret != b->ret || diag_str(*a) != diag_str(*b)) {
+				out.viol.push_back({"O-hist:parse", "op #" + std::to_string(i) + " ends differently after an earlier parse into the same context than without it: ret=" + std::to_string(a->ret) + " " + diag_str(*a) +
+									    " vs ret=" + std::to_string(b->ret) + " " + diag_str(*b),
+						    nullptr});
+				break;
+			}
+		}
+
 	// ---- O-reentry: what a callback does to ANOTHER context while this one is being parsed does not change this parse
 	if (out.viol.empty())
 		for (size_t i = 0; i < plan["steps"].size(); i++) {
@@ -606,7 +676,7 @@ Property P = [] {
 			 "O-trace compares values, counts and order, not the modified / reset markers (the parser sets them when it reads '=' / '+=', before the value is converted)",
 			 "O-reentry: the action of the callback touches only another context; the outcome for the context being parsed is compared with the run without the action",
 			 "O-scrub resets the scanner object's .data/.bss, cfg_yylval and errno between API calls; a correct library cannot observe that"};
-	p.probes = {"parse_begun_outside_INITIAL", "parse_failed_inside_included_file", "two_clients_interleaved", "rejected_probe_into_reused_context", "append_into_reused_context", "range_failure_trace_checked", "callback_acted_on_another_context"};
+	p.probes = {"parse_begun_outside_INITIAL", "parse_failed_inside_included_file", "two_clients_interleaved", "rejected_probe_into_reused_context", "append_into_reused_context", "range_failure_trace_checked", "callback_acted_on_another_context", "parse_after_history_vs_without"};
 	p.components = {{"confuse.c", "real"}, {"lexer.l (flex 2.6.4 generated)", "real"}, {"glibc stdio/strtol/strtod", "real"}, {"allocator", "stub: accounting wrappers over the real heap"},
 			{"file namespace (fopen/stat)", "stub: in-memory tree"}, {"getenv", "stub: simulated environment"}, {"user callbacks", "stub: simulator parties"}, {"exit/abort/assert", "stub: recorded and unwound"}};
 	p.quick_seconds = 20;
